@@ -220,7 +220,7 @@ def _feed_driver(drv, pin, pout, result):
 
     def limit():
         import resource
-        gib = int(os.environ.get("VERIF_MODEL_MEM_GIB", "3"))
+        gib = int(os.environ.get("VERIF_MODEL_MEM_GIB", "6"))
         resource.setrlimit(resource.RLIMIT_AS, (gib << 30, gib << 30))
 
     def start():
